@@ -638,7 +638,9 @@ func runC05(c *Ctx) {
 		switch op.front {
 		case c5feLog:
 			if sib {
-				op.sib = 1 + len(op.msg)%2
+				// (by the last digit of the message: by its length, as it was, the
+				// first sibling was only used from the tenth operation on)
+				op.sib = 1 + int(op.msg[len(op.msg)-1])%2
 				sibs[op.sib-1].Log(l, op.msg, field)
 			} else {
 				lg.Log(l, op.msg, field)
